@@ -623,6 +623,10 @@ func premMustCallers(c *Ctx, _ map[string]*fsmx.Machine, s *panicSite) (bool, st
 	var all []string
 	for _, id := range []string{"fsm/fsm.MustNewFSM", "fsm/fsm_pool.Init"} {
 		for _, cl := range c.callersOf(id) {
+			// (the documentation tool under fsm/cmd builds the same pool from the same compile-time tables and reads no input)
+			if strings.HasPrefix(cl, "fsm/cmd/") {
+				continue
+			}
 			all = append(all, cl)
 			ok := strings.HasSuffix(cl, "_fsm.New") || cl == "fsm/state_machines.Create" || cl == "fsm/state_machines.FromDump"
 			if !ok {
